@@ -14,9 +14,11 @@ import (
 	"fmt"
 	"math"
 	"math/big"
+	"regexp"
 	"strings"
 
 	"github.com/itchyny/gojq"
+	"github.com/itchyny/gojq/cli"
 
 	"verifharness/common"
 )
@@ -264,6 +266,64 @@ func main() {
 		}
 		shapes = append(shapes, sb.String())
 	}
+	// long literals (the encoders have fixed-size scratch buffers): 41..400 digits
+	for i := 0; i < ctx.N(120, 2000); i++ {
+		var sb strings.Builder
+		if r.Bool() {
+			sb.WriteByte('-')
+		}
+		n := common.Pick(r, []int{41, 47, 48, 62, 63, 64, 65, 66, 100, 127, 128, 129, 200, 400, r.Range(41, 300)})
+		frac := 0
+		if r.Chance(1, 2) {
+			frac = r.Range(1, n-1)
+		}
+		for j := 0; j < n; j++ {
+			d := byte('0' + r.Intn(10))
+			if j == 0 && d == '0' {
+				d = '7'
+			}
+			if frac > 0 && j == n-frac {
+				sb.WriteByte('.')
+			}
+			sb.WriteByte(d)
+		}
+		if r.Chance(1, 4) {
+			sb.WriteString(common.Pick(r, []string{"e", "E", "e+", "e-"}) + fmt.Sprint(r.Intn(400)))
+		}
+		shapes = append(shapes, sb.String())
+	}
+	// the command's own encoder: the literal as standard input text through the real cli.run,
+	// alone, inside an array and as an object value, compact and indented, plain and coloured
+	cliLit := ctx.NewOracle("literals-cli", "the same literals as stdin text through the real command (`.`, `[.]`, `{a: .}`; -c / default indent / -C): the digits on stdout are the digits of the input; distinct = distinct literals")
+	sgr := regexp.MustCompile("\x1b\\[[0-9;]*m")
+	for i, s := range shapes {
+		if !ctx.Thorough && i%3 != 0 && len(s) < 41 {
+			continue
+		}
+		for vi, variant := range [][]string{{"-c", "."}, {"-c", "[.]"}, {".", "--indent", "3"}, {"-c", "{a: .}"}, {"-C", "-c", "[., .]"}} {
+			if !ctx.Thorough && vi != i%5 && len(s) < 41 {
+				continue
+			}
+			cliLit.Cases++
+			stdout, _, code := cli.VerifRun(variant, []byte(s+"\n"))
+			got := sgr.ReplaceAllString(string(stdout), "")
+			digits := strings.Map(func(c rune) rune {
+				if strings.ContainsRune(" \n\t[]{}:,\"a", c) {
+					return -1
+				}
+				return c
+			}, got)
+			want := s
+			if vi == 4 {
+				want = s + s
+			}
+			if code != 0 || digits != want {
+				ctx.Violate("literal-cli:"+s+fmt.Sprint(":", vi), fmt.Sprintf("literal %s through `gojq %s` prints %s (status %d)", s, strings.Join(variant, " "), clipS(got), code),
+					map[string]any{"literal": s, "args": variant, "observed": got, "cmd": "echo '" + s + "' | gojq " + strings.Join(variant, " ")})
+			}
+		}
+	}
+	cliLit.Distinct = len(shapes)
 	seenLit := map[string]bool{}
 	for _, s := range shapes {
 		seenLit[s] = true
@@ -368,6 +428,13 @@ func isCmp(op string) bool {
 		return true
 	}
 	return false
+}
+
+func clipS(s string) string {
+	if len(s) > 200 {
+		return s[:200] + "…"
+	}
+	return s
 }
 
 func okBool(b bool) string {
